@@ -167,6 +167,9 @@ func (c *Ctx) Run(t *Trial, i int, cs *Case) *Result {
 	if rc.NumCPU > 1 {
 		st.Faults["knob_numcpu"]++
 	}
+	if rc.MaxProcs > 0 {
+		st.Faults["knob_gomaxprocs_differs_from_numcpu"]++
+	}
 	if th > 1 {
 		st.Faults["knob_threads"]++
 	}
@@ -286,6 +289,13 @@ func genRunCfg(r *Rand) RunCfg {
 	}
 	rc.Strat.SelectRand = r.P(0.8)
 	rc.NumCPU = r.PickInt(1, 2, 3, 4, 8, 16)
+	if r.P(0.12) {
+		// GOMAXPROCS below the processor count (environment variable, container quota) or, rarely, above it
+		rc.MaxProcs = r.Range(1, rc.NumCPU+1)
+		if rc.MaxProcs == rc.NumCPU {
+			rc.MaxProcs = 0
+		}
+	}
 	rc.MapMode = r.Intn(4)
 	if r.P(0.5) {
 		rc.Chunk = r.Range(1, 4)
